@@ -1,5 +1,6 @@
 ----------------------------- MODULE BoxTreeTrace -----------------------------
 (* {ev:"rt", file, atom, mode, eq}  {ev:"lazyeq", file, atom, eq}  {ev:"json", file, atom, eq, err}                      *)
+(* {ev:"memsize", file, lazy, ops, ok, pairs:[[size attribute after the edits, encoded length]]}                          *)
 (* {ev:"edit", file, ops, tops:[tree], total, reparse_eq, fields_ok}  {ev:"field", box, field, value_class, eq}           *)
 EXTENDS BoxTree, TLC, Json, IOUtils
 TraceLog == ndJsonDeserialize(IOEnv.TRACE_FILE)
@@ -14,6 +15,11 @@ Check(t) ==
     ELSE IF t.ev = "edit" THEN
         /\ Report("C04_SizesNest", C04_TopLevelTiles(t.tops, t.total), [ops |-> t.ops])
         /\ Report("C04_EditedTreeReparses", t.reparse_eq = 1 /\ t.fields_ok = 1, [ops |-> t.ops])
+    ELSE IF t.ev = "memsize" THEN
+        \* after insert / append / remove / move of boxes that have a size (parsed or encoded once), before any encode:
+        \* the size every box object holds equals the length it encodes to
+        Report("C04_SizeFieldEqEncodedLength", t.ok = 1 /\ \A i \in 1..Len(t.pairs) : t.pairs[i][1] = t.pairs[i][2],
+               [ops |-> t.ops, bad |-> { t.pairs[i] : i \in { j \in 1..Len(t.pairs) : t.pairs[j][1] # t.pairs[j][2] } }])
     ELSE IF t.ev = "field" THEN Report("C04_FieldBoundaryRoundTrip", t.eq = 1, [box |-> t.box, field |-> t.field, vc |-> t.value_class])
     ELSE TRUE
 TraceInit == l = 1
